@@ -959,6 +959,20 @@ impl Sim for SrvSim {
             let cap_out = if fault == ConnFault::StalledReader { *rng.pick(&[16, 64]) } else { *rng.pick(&[65_536, 65_536, 4096, 64, 3]) };
             conns.push(ConnScript { when, kind, handler_ms, fault, cap_in, cap_out, listener: rng.usize(0, 1) });
         }
+        // drain-window arm: a request is mid-handler when graceful shutdown is called and other
+        // clients keep connecting while the drain lasts
+        if let Some(ShutdownScript { mode: Mode::Graceful { timeout_ms }, at_ns, .. }) = &shutdown {
+            if rng.chance(1, 4) {
+                let at_ms = at_ns / 1_000_000 + 1;
+                let hold = (*timeout_ms).min(2_000).max(4);
+                let h = rng.range(3, hold.saturating_sub(1).max(3)).min(60);
+                conns.push(ConnScript { when: When::At { ns: 0 }, kind: ConnKind::Full, handler_ms: at_ms + h, fault: ConnFault::None, cap_in: 65_536, cap_out: 65_536, listener: 0 });
+                for _ in 0..rng.usize(1, 3) {
+                    let k = rng.range(1, h.max(1));
+                    conns.push(ConnScript { when: When::At { ns: (at_ms + k) * 1_000_000 }, kind: ConnKind::Full, handler_ms: 0, fault: ConnFault::None, cap_in: 65_536, cap_out: 65_536, listener: rng.usize(0, 1) });
+                }
+            }
+        }
         let mut weights = Vec::new();
         match rng.below(6) {
             0 => weights.push(("pavex-worker".to_string(), 1)),
